@@ -1,5 +1,5 @@
 """Property -> rules registry."""
-from .rules import kernel, incr, rot, sched, meas, integrator, kal, purity, diff, sensor, layout
+from .rules import kernel, incr, rot, sched, meas, integrator, kal, purity, diff, sensor, layout, geo
 
 PROPS = {
     'C01': dict(
@@ -165,6 +165,18 @@ PROPS = {
                  'estimates enter the correction with the sign opposite to their attribution'],
         undecided=['bit-identity with plain integration (floating point: solve(I, v - 0*dt))',
                    'second-order agreement with the feedforward filter']),
+    'C16': dict(
+        rules=[kernel.sib_grav, geo.geo_frame, geo.geo_perturb, geo.geo_curv, geo.parity,
+               geo.role_radii],
+        decided=['NED axes of mat_en_from_ll are the partial derivatives of lla_to_ecef with '
+                 'lengths given by principal_radii (symbolic proof for all lat/lon/alt)',
+                 'perturb_lla, compute_lla_difference and lla_to_ned agree with that geometry to '
+                 'first order', 'curvature matrix = rotation of the NED frame under displacement',
+                 'rate_n, gravity_n, gravitation_ecef (gravity minus centrifugal) and the compiled '
+                 'gravity copy are one field', 'even/odd symmetry in latitude'],
+        undecided=['ECEF -> geodetic round trip (Olson iteration is numerical)',
+                   'behaviour exactly at the poles (division by cos lat)',
+                   'scalar/vector call-form agreement']),
 }
 
 
